@@ -46,6 +46,9 @@ CHECKS["C03"]=dict(level="exploration", design="DESIGN.md §3 C03", technique="r
 CHECKS["C05"]=dict(level="exploration", design="DESIGN.md §3 C05", technique="runtime monitoring with a schedule controller: the real Scheduler.Update is driven by the harness (two pools: pending commands / undelivered messages, PRNG picks) over real tier2 jobs and squashes, invariant monitors on scheduler state + differential final state vs REF-LINEAR; real-loop runs under the Go race detector",
    text="On every explored (grid, initial cache subset, worker count, schedule): no job started before the lower stages it loads were complete, each segment merged exactly once and in order, no invalid transition, clean quit with the reference stores at the hand-off and all requested outputs written; deadlocks are detected as exhausted pools or a walker polling with unchanging state. One recorded known finding (stage index shift).",
    note="Commands are executed one at a time (overlap is modelled by delaying message delivery); async file writes are awaited between steps; bounded progress stands in for liveness.")
+CHECKS["C12"]=dict(level="exploration", design="DESIGN.md §3 C12", technique="runtime monitoring of the real resolution+planning functions chained as tier1 chains them: range-tiling and segment-alignment invariants from the property statement over lattice-biased PRNG tuples and enumerated cursor shapes; sampled accepted plans executed end-to-end in the in-process cluster",
+   text="For every explored (mode, segment size, initial blocks, start, stop, finality) tuple the resolved start/hand-off and the plan tiled [start, stop) exactly (cached-output range, gated linear range), stores were planned exactly up to the hand-off, every job range was a whole segment, forked cursors produced the junction undo signal and restart, and sampled accepted plans executed to completion with reference outputs.",
+   note="Graph shape fixed (output map over 0..3 stores); an error is always an acceptable planner answer; quick is a lattice-biased sample, not the exhaustive product.")
 NOT_YET = {}
 def main():
     checks=[]
